@@ -516,6 +516,7 @@ func (s *Sim) loop() {
 		s.mu.Lock()
 		s.collect()
 		if s.Viol != nil || s.ToolErr != "" {
+			s.drainUnlocksLocked()
 			s.mu.Unlock()
 			return
 		}
@@ -527,6 +528,7 @@ func (s *Sim) loop() {
 		}
 		if s.steps >= s.cfg.MaxSteps {
 			s.failLocked("livelock", s.livelockSite(), fmt.Sprintf("no termination within %d steps", s.cfg.MaxSteps))
+			s.drainUnlocksLocked()
 			s.mu.Unlock()
 			return
 		}
@@ -577,6 +579,43 @@ func (s *Sim) loop() {
 		}
 		s.release(g)
 		s.mu.Unlock()
+	}
+}
+
+// drainUnlocksLocked: a run that is stopped abandons its goroutines where
+// they are parked. One that is parked inside a critical section (after the
+// hook that follows Lock, before an unlock) would keep a real mutex locked for
+// the rest of the process, and package-level mutexes outlive the run: the next
+// run's lock model would believe such a mutex free and release a goroutine
+// into a real Lock that never returns (which synctest does not count as
+// durably blocked, so the simulator itself would hang). So every goroutine
+// that owns a lock, or is parked before an unlock, is let run on (lowest id
+// first, only while it is enabled) until it owns none; it parks again at its
+// next hook. Called and returns with s.mu held.
+func (s *Sim) drainUnlocksLocked() {
+	for i := 0; i < 512; i++ {
+		owners := map[*G]bool{}
+		for _, ls := range s.locks {
+			if ls.owner != nil {
+				owners[ls.owner] = true
+			}
+		}
+		var g *G
+		for _, x := range s.enabledLocked() { // by id
+			p := &x.pend
+			if owners[x] || (p.phase == phPre && (p.kind == KUnlock || p.kind == KRUnlock)) {
+				g = x
+				break
+			}
+		}
+		if g == nil {
+			return
+		}
+		s.release(g)
+		s.mu.Unlock()
+		synctest.Wait()
+		s.mu.Lock()
+		s.collect()
 	}
 }
 
